@@ -265,38 +265,77 @@ Definition form_eqb (kv : kmap) (a b : form) : bool :=
 Definition alu_sets_flags_zero (op : op64) : bool :=
   match op with AND | OR | XOR | SLL | SRL | EQ | LT | GT => true | _ => false end.
 
-Definition set_flags_zero (kv : kmap) : kmap := kset (kset (kill (kill kv R_OF) R_ERR) R_OF (KC 0)) R_ERR (KC 0).
+(* registers an op writes on this machine *)
+Definition written (o : op) : list reg :=
+  match kind o with
+  | KMove d _ => [d; R_OF; R_ERR]
+  | KNoop => [R_OF; R_ERR]
+  | KOther _ _ =>
+      match decode (kind o) with
+      | Some (IAlu _ d _ _) => [d; R_OF; R_ERR]
+      | Some (INot d _) => [d; R_OF; R_ERR]
+      | Some (IMovi d _) => [d; R_OF; R_ERR]
+      | None => defs o ++ cdefs o
+      end
+  | _ => []
+  end.
 
-Definition assign (kv : kmap) (d : reg) (v : option kval) : kmap :=
-  let kv' := kill kv d in match v with Some k => kset kv' d k | None => kv' end.
+Definition memr (r : reg) (l : list reg) : bool := existsb (N.eqb r) l.
+(* a fact "equal to s" is only kept when s itself is not overwritten *)
+Definition fact_ok (W : list reg) (p : reg * kval) : bool :=
+  match snd p with KC _ => true | KE s => negb (memr s W) end.
+
+Definition flags_zero_facts : list (reg * kval) := [(R_OF, KC 0); (R_ERR, KC 0)].
+Definition opt_fact (d : reg) (v : option kval) : list (reg * kval) :=
+  match v with Some k => [(d, k)] | None => [] end.
+
+Definition alu_value (kv : kmap) (op : op64) (x y : operand) : option kval :=
+  match resolve kv x, resolve kv y with
+  | SC l, SC r => match fold_const op l r with Some c => Some (KC c) | None => None end
+  | sx, sy => match identity op sx sy with Some s => kval_of s | None => None end
+  end.
+
+(* what is known after the op, computed from the map before it *)
+Definition new_facts (kv : kmap) (o : op) : list (reg * kval) :=
+  match kind o with
+  | KMove d s => opt_fact d (kval_of (resolve_reg kv s)) ++ flags_zero_facts
+  | KNoop => flags_zero_facts
+  | KOther _ _ =>
+      match decode (kind o) with
+      | Some (IAlu op d x y) =>
+          match alu_value kv op x y with
+          | Some k => (d, k) :: flags_zero_facts
+          | None => if alu_sets_flags_zero op then flags_zero_facts else []
+          end
+      | Some (INot d a) =>
+          opt_fact d (match resolve_reg kv a with SC n => Some (KC (N.lnot n 64)) | _ => None end) ++ flags_zero_facts
+      | Some (IMovi d n) => (d, KC n) :: flags_zero_facts
+      | None => []
+      end
+  | _ => []
+  end.
+
+Definition add_facts (m : kmap) (fs : list (reg * kval)) : kmap :=
+  fold_left (fun m p => kset m (fst p) (snd p)) fs m.
+
+Definition transfer_general (kv : kmap) (o : op) : kmap :=
+  let W := written o in add_facts (kill_all kv W) (filter (fact_ok W) (new_facts kv o)).
 
 Definition transfer_kv (targets : list label) (kv : kmap) (o : op) : kmap :=
   match kind o with
-  | KMove d s => set_flags_zero (assign kv d (kval_of (resolve_reg kv s)))
-  | KNoop => set_flags_zero kv
   | KLabel l => if existsb (N.eqb l) targets then [] else kv
   | KJump _ | KJnz _ _ => kv
   | KCall _ | KRet | KJmpAddr _ => []
-  | KOther opc args =>
+  | KOther opc _ =>
       match decode (kind o) with
-      | Some (IAlu op d x y) =>
-          let v := match resolve kv x, resolve kv y with
-                   | SC l, SC r => match fold_const op l r with Some c => Some (KC c) | None => None end
-                   | sx, sy => match identity op sx sy with Some s => kval_of s | None => None end
-                   end in
-          let kv1 := assign (kill (kill kv R_OF) R_ERR) d v in
-          match v with
-          | Some _ => set_flags_zero kv1
-          | None => if alu_sets_flags_zero op then set_flags_zero kv1 else kv1
-          end
-      | Some (INot d a) =>
-          set_flags_zero (assign kv d (match resolve_reg kv a with SC n => Some (KC (N.lnot n 64)) | _ => None end))
-      | Some (IMovi d n) => set_flags_zero (assign kv d (Some (KC n)))
+      | Some _ => transfer_general kv o
       | None =>
           if N.eqb opc 12 then   (* pusha: constant_propagate keeps what it knows about virtual registers *)
-            filter (fun p => andb (is_virt (fst p)) (match snd p with KC _ => true | KE s => is_virt s end)) kv
-          else if is_org_stop opc then [] else kill_all kv (defs o ++ cdefs o)
+            filter (fun p => andb (is_virt (fst p)) (match snd p with KC _ => true | KE s => is_virt s end))
+                   (kill_all kv (written o))
+          else if is_org_stop opc then [] else transfer_general kv o
       end
+  | _ => transfer_general kv o
   end.
 
 (* labels some jump of the program goes to *)
